@@ -207,6 +207,19 @@ func Main(id, tier string) {
 		classes = classes[:8]
 	}
 	c.SetExtra("outcome_examples", classes)
+	var cut []string
+	for k, v := range total.Outcomes {
+		if strings.Contains(k, "horizon=true") {
+			cut = append(cut, fmt.Sprintf("%dx %s", v, k))
+		}
+	}
+	sort.Strings(cut)
+	if len(cut) > 6 {
+		cut = cut[:6]
+	}
+	if len(cut) > 0 {
+		c.SetExtra("horizon_cut_examples", cut)
+	}
 	for i, sc := range scs {
 		if i%(len(scs)/4+1) == 0 {
 			c.Sample(map[string]any{"scenario": sc.Spec.Kind, "params": sc.Spec.Params, "bound": def.Bound(tier, sc), "horizon": sc.Horizon})
